@@ -106,19 +106,33 @@ def clauses_for(shape, ux, uy):
     return bad
 
 
+def full_shapes(n):
+    """Full binary trees (every node has 0 or 2 children) with exactly n nodes (n odd)."""
+    if n == 1:
+        yield (None, None)
+        return
+    for nl in range(1, n - 1, 2):
+        for l in full_shapes(nl):
+            for r in full_shapes(n - 1 - nl):
+                yield (l, r)
+
+
 def main():
     maxn = int(sys.argv[1])
+    maxfull = int(sys.argv[2]) if len(sys.argv) > 2 else 0
     out = {}
     nshapes = 0
-    for n in range(1, maxn + 1):
-        for sh in shapes(n):
-            nshapes += 1
-            bad = set()
-            for ux, uy in ((1.0, 1.0), (2.5, 2.0)):
-                bad |= clauses_for(sh, ux, uy)
-            if bad:
-                out[canon(sh)] = sorted(bad)
-    print(json.dumps({"max_nodes": maxn, "shapes": nshapes, "unit_multipliers": [[1.0, 1.0], [2.5, 2.0]], "failing": out}))
+    import itertools
+
+    fam = itertools.chain((sh for n in range(1, maxn + 1) for sh in shapes(n)), (sh for n in range(maxn + 1 + (maxn % 2), maxfull + 1, 2) for sh in full_shapes(n)))
+    for sh in fam:
+        nshapes += 1
+        bad = set()
+        for ux, uy in ((1.0, 1.0), (2.5, 2.0)):
+            bad |= clauses_for(sh, ux, uy)
+        if bad:
+            out[canon(sh)] = sorted(bad)
+    print(json.dumps({"max_nodes": maxn, "max_nodes_full_trees": maxfull, "shapes": nshapes, "unit_multipliers": [[1.0, 1.0], [2.5, 2.0]], "failing": out}))
 
 
 if __name__ == "__main__":
